@@ -163,6 +163,7 @@ structure Node where
   store : Storage
   queries : List (Nat × List Nat)     -- node id ↦ last query times (oldest first), `deque(maxlen=NODE_LIMIT_QUERIES)`
   peers : List (Nat × List Ident)     -- DHTDiscoveryCommunity.store
+  recv : List (Nat × Nat) := []       -- `self.tokens`: node id ↦ time a token was RECEIVED from that node (client role)
   deriving Repr, Inhabited
 
 def keepLast {α : Type} (n : Nat) (l : List α) : List α := l.drop (l.length - n)
@@ -175,7 +176,15 @@ def Node.init (now0 : Nat) : Node :=
 /-- `token_maintenance` -/
 def Node.rotate (n : Node) : Node :=
   { n with secrets := keepLast Gen.tokenSecretsMaxlen (n.secrets ++ [(n.nextSecret, n.now)]),
-           nextSecret := n.nextSecret + 1 }
+           nextSecret := n.nextSecret + 1,
+           -- "Cleanup old tokens": received tokens past TOKEN_EXPIRATION_TIME are dropped; the run always completes
+           recv := n.recv.filter (fun e => !decide (n.now > e.2 + Gen.tokenExpirationTime)) }
+
+/-- `on_find_response`: `self.tokens[node.id] = (time.time(), token)` -/
+def Node.recvToken (n : Node) (nid : Nat) : Node :=
+  { n with recv := if n.recv.any (fun e => e.1 == nid)
+                   then n.recv.map (fun e => if e.1 == nid then (nid, n.now) else e)
+                   else n.recv ++ [(nid, n.now)] }
 
 /-- `value_maintenance` -/
 def Node.clean (n : Node) : Node := { n with store := n.store.clean n.now }
@@ -309,6 +318,7 @@ inductive Op (Tok : Type)
   | storePeer (who : Ident) (token : Tok) (target : Nat)
   | ping (nid : Nat)
   | cache (key : Nat) (values : List Blob) (loc : Bool)     -- the node's own store_on_nodes / lookup caching
+  | recvTok (nid : Nat)                                     -- the node itself did a find and got a token from `nid`
 
 def Node.step {Tok : Type} [DecidableEq Tok] (C : Crypto Tok) (n : Node) : Op Tok → Node
   | .adv dt => n.adv dt
@@ -319,6 +329,7 @@ def Node.step {Tok : Type} [DecidableEq Tok] (C : Crypto Tok) (n : Node) : Op To
   | .storePeer w tok t => (n.storePeerReq C w tok t).1
   | .ping nid => (n.pingReq nid).1
   | .cache key values loc => n.cacheStore C key values loc
+  | .recvTok nid => n.recvToken nid
 
 def Node.run {Tok : Type} [DecidableEq Tok] (C : Crypto Tok) (n : Node) (ops : List (Op Tok)) : Node :=
   ops.foldl (Node.step C) n
